@@ -23,7 +23,7 @@ import RumaModel.Model.Push
 namespace Ruma.Spec.Push
 open Ruma.Push (Text PJ Scalar Cond CmpOp MemberCountIs Ctx PowerLevelsCtx CondRule PatRule SimpleRule
   Ruleset AnyRule)
-open Ruma.Spec.Glob (wordMatchDecide valueDecide)
+open Ruma.Spec.Glob (wordMatchDecide valueDecide wordMatches valueMatches)
 
 def keyRoomId : Text := "room_id".toList
 def keyContentBody : Text := "content.body".toList
@@ -222,5 +222,48 @@ def sentBySelf (ev : PJ) (ctx : Ctx) : Bool := lookupStr ev keySender == some ct
 conditions hold; nothing for the user's own events. -/
 def getMatch (P : Params) (rs : Ruleset) (ev : PJ) (ctx : Ctx) : Option AnyRule :=
   if sentBySelf ev ctx then none else (orderedRules rs).find? (ruleHolds P ev ctx)
+
+/-! ### The conditions, read as propositions -/
+
+/-- A scalar condition value as a JSON value. -/
+def scalarJson : Scalar → PJ
+  | .null => .null
+  | .bool b => .bool b
+  | .int i => .int i
+  | .str s => .str s
+
+/-- The JSON value `v` is the scalar `x` ("exact value match"; integers are canonical-JSON integers). -/
+def JsonIs (v : PJ) (x : Scalar) : Prop :=
+  v = scalarJson x ∧ ∀ i, x = .int i → canonicalInt i = true
+
+/-- "The condition holds for the event in this room", condition by condition. -/
+def CondHolds (P : Params) (ev : PJ) (ctx : Ctx) : Cond → Prop
+  | .eventMatch key pattern =>
+    ∃ v, (if key = keyRoomId then v = ctx.roomId else lookupStr ev key = some v) ∧
+      (if key = keyContentBody then wordMatches P.lower pattern v else valueMatches P.lower pattern v)
+  | .containsDisplayName =>
+    ∃ body, lookupStr ev keyContentBody = some body ∧ wordMatches P.lower ctx.displayName body
+  | .roomMemberCount is =>
+    match is.prefix_ with
+    | .eq => ctx.memberCount = is.count
+    | .lt => ctx.memberCount < is.count
+    | .gt => ctx.memberCount > is.count
+    | .ge => ctx.memberCount ≥ is.count
+    | .le => ctx.memberCount ≤ is.count
+  | .senderNotificationPermission key =>
+    ∃ pl sender, ctx.powerLevels = some pl ∧ lookupStr ev keySender = some sender ∧
+      P.isUserId sender = true ∧ key = keyRoom ∧ levelOf pl sender ≥ pl.room
+  | .eventPropertyIs key value => ∃ v, lookup ev key = some v ∧ JsonIs v value
+  | .eventPropertyContains key value =>
+    ∃ xs, lookup ev key = some (.arr xs) ∧ ∃ x ∈ xs, JsonIs x value
+  | .custom => False
+
+/-- Rank of a rule's kind in the priority order. -/
+def kindRank : AnyRule → Nat
+  | .override_ _ => 0
+  | .content _ => 1
+  | .room _ => 2
+  | .sender _ => 3
+  | .underride _ => 4
 
 end Ruma.Spec.Push
